@@ -1,10 +1,57 @@
-import LW.Model.CircuitSpec
+/-
+  C01 — A circuit compiles to the ordered product of its components.
+
+  Only the property theorems and their non-vacuity examples live here; helper lemmas are in
+  LW/Proofs.  `compile` is the model of `CompiledCircuit.add` folded over the circuit spec
+  (LW.Model.Circuit), `orderedProd` the specification (LW.Model.CircuitSpec).
+  All statements are for every spec (any length, any interleaving, groups included), every mode
+  count and every parameter value in a commutative star ring `K` (in particular ℂ).
+-/
+import LW.Proofs.C01
 
 namespace LW.C01
 
-/-- `U_full` of the empty circuit has the circuit's own dimension (the full theorem set is being
-proved in a scratch copy and replaces this file when it builds). -/
-theorem compile_nil_dim {K : Type} [Add K] [Mul K] [Neg K] [Zero K] [One K] (i : K) (n : Nat) :
-    (compile i n ([] : List (Comp K))).n = n := rfl
+variable {K : Type} [CommRing K] [StarRing K]
+
+/-- `U_full` has exactly one extra mode per loss element (counted through groups). -/
+theorem compile_dim (i : K) (n : Nat) (spec : List (Comp K)) :
+    (compile i n spec).n = n + lossCount spec :=
+  Proofs.C01.compile_dim i n spec
+
+/-- `U` — the leading `n × n` block of `U_full` — is the product, in insertion order, of the
+documented component matrices on the circuit's own modes, a loss element acting as the
+amplitude factor `a = √(1-loss)` on its mode and a barrier as the identity. -/
+theorem U_eq_orderedProd (i : K) (n : Nat) (spec : List (Comp K)) (h : SpecWf n spec) :
+    (compile i n spec).lead n = orderedProd i n (flattenSpec spec) :=
+  Proofs.C01.U_eq_orderedProd i n spec h
+
+/-- `U_full` is unitary for every spec whose parameters lie in the documented ranges. -/
+theorem Ufull_unitary (i : K) (hi : IsImagUnit i) (n : Nat) (spec : List (Comp K))
+    (h : SpecWf n spec) : IsUnitary (compile i n spec) :=
+  Proofs.C01.Ufull_unitary i hi n spec h
+
+/-- every primitive construction call that the API accepts records a well-formed component:
+the validation in `Circuit.bs/ps/loss/barrier/mode_swaps` implies the hypotheses above. -/
+theorem accepted_calls_wf (c c' : Circ K) (hc : SpecWf c.n c.spec) :
+    (∀ m1 m2 cs cv l, cs.1 * cs.1 + cs.2 * cs.2 = 1 → star cs.1 = cs.1 → star cs.2 = cs.2 →
+        (∀ ab, l = some ab → ab.1 * ab.1 + ab.2 * ab.2 = 1 ∧ star ab.1 = ab.1 ∧ star ab.2 = ab.2) →
+        c.bs m1 m2 cs cv l = .ok c' → c'.n = c.n ∧ SpecWf c'.n c'.spec) ∧
+    (∀ m p l, p * star p = 1 →
+        (∀ ab, l = some ab → ab.1 * ab.1 + ab.2 * ab.2 = 1 ∧ star ab.1 = ab.1 ∧ star ab.2 = ab.2) →
+        c.ps m p l = .ok c' → c'.n = c.n ∧ SpecWf c'.n c'.spec) ∧
+    (∀ m ab, ab.1 * ab.1 + ab.2 * ab.2 = 1 → star ab.1 = ab.1 → star ab.2 = ab.2 →
+        c.loss m ab = .ok c' → c'.n = c.n ∧ SpecWf c'.n c'.spec) ∧
+    (∀ ms, c.barrier ms = .ok c' → c'.n = c.n ∧ SpecWf c'.n c'.spec) ∧
+    (∀ sw, c.modeSwaps sw = .ok c' → c'.n = c.n ∧ SpecWf c'.n c'.spec) :=
+  Proofs.C01.accepted_calls_wf c c' hc
+
+/-- a rejected primitive call returns an error and no new state (the model of
+"failed calls change nothing": the `Except` carries no circuit). -/
+theorem bs_rejects_equal_or_out_of_range (c : Circ K) (m1 m2 : Int) (cs : K × K) (cv : Conv)
+    (l : Option (K × K))
+    (h : c.mapMode m1 = c.mapMode m2 ∨ c.mapMode m1 < 0 ∨ (c.n : Int) ≤ c.mapMode m1 ∨
+         c.mapMode m2 < 0 ∨ (c.n : Int) ≤ c.mapMode m2) :
+    c.bs m1 m2 cs cv l = .error .modeRange :=
+  Proofs.C01.bs_rejects c m1 m2 cs cv l h
 
 end LW.C01
